@@ -3,6 +3,7 @@ package core
 import (
 	"bytes"
 	"encoding/json"
+	"fmt"
 	"io"
 	"net/http"
 	"net/http/httptest"
@@ -69,7 +70,16 @@ func (a *API) Do(method, target string, body []byte, hdr map[string]string) Resp
 		req.Header.Set(k, v)
 	}
 	rec := httptest.NewRecorder()
-	a.Engine.ServeHTTP(rec, req)
+	// a panic that gets past the engine's own recovery would, under net/http, drop the
+	// connection without an answer: report it as status 599 with the panic text as body
+	var escaped any
+	func() {
+		defer func() { escaped = recover() }()
+		a.Engine.ServeHTTP(rec, req)
+	}()
+	if escaped != nil {
+		return Resp{Code: 599, Body: []byte(fmt.Sprintf("panic escaped Engine.ServeHTTP: %v", escaped)), Hdr: rec.Header()}
+	}
 	return Resp{Code: rec.Code, Body: rec.Body.Bytes(), Hdr: rec.Header()}
 }
 
